@@ -20,7 +20,7 @@ import (
 
 var (
 	c07WalletPatterns  = []string{"Wallet1", "wallet1", "Wallet.*", "Wallet1|Wallet2", "Wallet[12]", "^Wallet1$", "^Wallet1", "Wallet1$", "^Wallet1|Wallet2", `W\$`, "(?i)wallet1", "(Wallet1)"}
-	c07AccountPatterns = []string{"", "acc", "a.*", "acc|b", "^acc$", `\D+`, `\W+`, `[^\S]*\S{3}`}
+	c07AccountPatterns = []string{"", "acc", "a.*", "acc|b", "^acc$", `\D+`, `\W+`, `[^\S]*\S{3}`, `(acc|accx)`}
 	c07Wallets         = []string{"Wallet1", "Wallet2", "Wallet10", "xWallet2", "WALLET1", "Wallet", "W$", "W$x"}
 	c07Accounts        = []string{"acc", "accx", "b", "", "2024", "x/acc"} // the last: the wallet is what precedes the FIRST slash
 	c07Ops             = []string{"Sign", "Sign beacon attestation", "Access account"}
@@ -397,7 +397,7 @@ func C07(tier string) int {
 	run.Coverage = map[string]any{
 		"evaluations":         calls + cells,
 		"distinct_nontrivial": len(classes) + len(sclasses),
-		"rule":                "checker grid: every one-entry table over (12 wallet patterns x 8 account patterns (literals, alternation, anchors, escape classes \\D \\W \\S) x ordered operation lists of length <= 2 (3 in thorough) over 8 items) and two-entry tables (first entry x 4 second entries), each asked for 8 wallet names x 6 account names (one containing a slash) x 3 operations x 6 client identities; verdict is one-directional: Check==true implies the reference evaluator (whole-name, case-insensitive, first bearing item) allows; service grid: 8 tables x 3 clients x 4 wallets x 3 accounts x every operation of signer (by name and by key), lister, account manager, wallet manager and generate on the real services: carried out only if the evaluator allows on the resolved name, and a refused request leaves decoded records and lock/account state unchanged; distinct = (dirk verdict, reference verdict) and (operation, allowed, done) classes",
+		"rule":                "checker grid: every one-entry table over (12 wallet patterns x 9 account patterns (literals, alternation, anchors, escape classes \\D \\W \\S) x ordered operation lists of length <= 2 (3 in thorough) over 8 items) and two-entry tables (first entry x 4 second entries), each asked for 8 wallet names x 6 account names (one containing a slash) x 3 operations x 6 client identities; verdict is one-directional: Check==true implies the reference evaluator (whole-name, case-insensitive, first bearing item) allows; service grid: 8 tables x 3 clients x 4 wallets x 3 accounts x every operation of signer (by name and by key), lister, account manager, wallet manager and generate on the real services: carried out only if the evaluator allows on the resolved name, and a refused request leaves decoded records and lock/account state unchanged; distinct = (dirk verdict, reference verdict) and (operation, allowed, done) classes",
 		"samples": []any{
 			map[string]any{"table": map[string]any{"c1": []any{map[string]any{"path": "Wallet1|Wallet2", "ops": []string{"All"}}}}, "request": "client c1, Sign on Wallet10/acc"},
 			map[string]any{"service_cell": "table 3, client c1, Lock account on Wallet1/acc by name"},
